@@ -147,24 +147,27 @@ def scn_gmrf_integrated(N, alpha, beta, batch):
     return scn
 
 
-def scn_coalescent_integrated(T, scheme, alpha, beta):
+def scn_coalescent_integrated(T, scheme, alpha, beta, batch=()):
     from contracts.C08 import SCHEMES, _heights, _require_genealogy
     tips = SCHEMES[scheme](T)
+    batch = tuple(batch)
 
     def scn(mk):
         import torchtree.evolution.coalescent as co
         from vt import cond
         cond.TIES[0] = "assume_distinct"
         with symbolic_factories(co, enabled=mk.symbolic):
-            nh, h = _heights(mk, T, (), tips)
-            _require_genealogy(mk, tips, h, (), T)
+            nh, h = _heights(mk, T, batch, tips)
+            _require_genealogy(mk, tips, h, batch, T)
             val = co.ConstantCoalescentIntegrated(alpha, beta).log_prob(nh)
-        # Σ C(k,2) Δt from the oracle with theta = 1 (minus the log-theta terms, which vanish)
-        tot = -kingman.log_density(tips, [el(h, (i,)) for i in range(T - 1)], kingman.Constant(1.0 if not mk.symbolic else nf.ONE))
         n = T - 1
         const = alpha * math.log(beta) - math.lgamma(alpha) + math.lgamma(alpha + n)
-        spec = const - (alpha + n) * slog(tot + beta)
-        return [("eq", "integrated_coalescent_closed_form", val, [spec])]
+        spec = []
+        for b in itertools.product(*[range(s) for s in batch]):
+            # Σ C(k,2) Δt of sample b from the oracle with theta = 1 (minus the log-theta terms, which vanish)
+            tot = -kingman.log_density(tips, [el(h, b + (i,)) for i in range(T - 1)], kingman.Constant(1.0 if not mk.symbolic else nf.ONE))
+            spec.append(const - (alpha + n) * slog(tot + beta))
+        return [("eq", "integrated_coalescent_closed_form", val, spec)]
     return scn
 
 
@@ -614,6 +617,8 @@ def obligations(tier, seed):
     for T in (2, 3, 4):
         for scheme in ("iso", "serial"):
             add("C20.integrated.coalescent[T=%d,%s]" % (T, scheme), "scn_coalescent_integrated", (T, scheme, 1.5, 0.8), "size-integrated constant coalescent ≡ closed form")
+    for T, scheme, batch in ((2, "serial", (2,)), (3, "iso", (2,)), (3, "serial", (2,)), (2, "iso", (3,)), (2, "serial", (1,)), (2, "iso", (1, 2))):
+        add("C20.integrated.coalescent[T=%d,%s,batch=%s]" % (T, scheme, batch), "scn_coalescent_integrated", (T, scheme, 1.5, 0.8, batch), "size-integrated constant coalescent ≡ closed form, each sample of a batch")
     for T in ((2, 3) if tier == "quick" else (2, 3, 4)):
         for scheme in ("iso", "serial", "ties"):
             if T == 2 and scheme == "ties":
